@@ -10,6 +10,7 @@ import (
 	"net"
 	"net/netip"
 	"reflect"
+	"slices"
 	"strconv"
 	"sync"
 	"time"
@@ -537,6 +538,18 @@ func (a *Agent) gatherCandidatesLocalUDPMux(ctx context.Context) error { //nolin
 			return errInvalidAddress
 		}
 		candidateIPs := []net.IP{udpAddr.IP}
+
+		// The mux socket is borrowed, but the candidate is still a UDP candidate of this agent:
+		// it is only advertised if its network type is enabled.
+		if muxAddr, ok := netip.AddrFromSlice(udpAddr.IP); ok {
+			muxNetworkType := NetworkTypeUDP6
+			if muxAddr.Unmap().Is4() {
+				muxNetworkType = NetworkTypeUDP4
+			}
+			if !slices.Contains(configuredNetworkTypes(a.networkTypes), muxNetworkType) {
+				continue
+			}
+		}
 
 		if _, ok := a.udpMux.(*UDPMuxDefault); ok && !a.includeLoopback && udpAddr.IP.IsLoopback() {
 			// Unlike MultiUDPMux Default, UDPMuxDefault doesn't have
